@@ -262,7 +262,7 @@ func runBacklog(id int, sc Scenario, seed int64) Rec {
 	}
 	faulty := sc.Fault.Kind != "none"
 	if faulty {
-		l.WaitReturn(1500 * time.Millisecond)
+		l.WaitReturn(l1.FaultWait())
 	} else {
 		dl := time.Now().Add(2 * time.Second)
 		for !l.Drained() && time.Now().Before(dl) {
@@ -321,7 +321,7 @@ func runBusy(id int, sc Scenario, seed int64) Rec {
 	case <-time.After(2 * time.Second):
 		close(gate)
 	}
-	l.WaitReturn(1500 * time.Millisecond)
+	l.WaitReturn(l1.FaultWait())
 	observe(&rec, l, f.badline)
 	return rec
 }
